@@ -284,16 +284,34 @@ func loopVariant(fn *ssa.Function, h *ssa.BasicBlock) (kind string, ok bool) {
 	// (b) field decrement: the loop condition tests a field against a constant lower bound and every cycle
 	// stores field-1 into that field, with no other store to it in the loop.
 	for _, ex := range exits {
-		if ex.ifi.Block() != h {
-			continue
-		}
 		at := core.Decompose(ex.ifi.Cond)
 		fr, base, isF := core.LoadedField(at.Base)
-		if !isF || (at.Op != token.GEQ && at.Op != token.GTR) {
+		if !isF {
 			continue
 		}
 		if _, isC := at.Other.(*ssa.Const); !isC {
 			continue
+		}
+		// the loop goes on while the field is >= (>) the constant: `for f >= 0 {` in the header, or
+		// `f--; if f < 0 { return }` anywhere on the cycle
+		contSucc := 1 - ex.succ
+		contWhenAtomTrue := (contSucc == 0) != at.Neg
+		switch at.Op {
+		case token.GEQ, token.GTR:
+			if !contWhenAtomTrue {
+				continue
+			}
+		case token.LSS, token.LEQ:
+			if contWhenAtomTrue {
+				continue
+			}
+		default:
+			continue
+		}
+		if ex.ifi.Block() != h {
+			if okTest, _ := everyCyclePasses(h, body, func(x ssa.Instruction) bool { return x == ssa.Instruction(ex.ifi) }); !okTest {
+				continue
+			}
 		}
 		isDec := func(in ssa.Instruction) bool {
 			st, ok := in.(*ssa.Store)
